@@ -227,3 +227,38 @@ Proof.
   split; [exact cfbn_check_complete|].
   split; [exact split_check_complete|exact compare_check_complete].
 Qed.
+
+(* ---- the byte-order-converting copy (Swap.v): its checker is complete as well *)
+From EsVerif.C07 Require Import Swap.
+
+Lemma copy_ok_sw_unique a1 a2 r :
+  NoDup (names a2) -> copy_ok_sw a1 a2 r -> r = mkA (shape a2) (copy_expected_sw a1 a2).
+Proof.
+  intros Hn (Hs & Hd & Hc & Hu). apply eq_mkA; [exact Hs|].
+  assert (P : forall g, fname (upd_sw (fields a1) g) = fname g).
+  { intro g. unfold upd_sw. destruct (find_field (fname g) (fields a1)); reflexivity. }
+  assert (Dexp : map fdesc (copy_expected_sw a1 a2) = map fdesc (fields a2)).
+  { unfold copy_expected_sw. rewrite map_map. apply map_ext. intro g. unfold upd_sw.
+    destruct (find_field (fname g) (fields a1)); reflexivity. }
+  apply fields_ext.
+  - unfold descr in Hd. now rewrite Hd, Dexp.
+  - replace (map fname (fields r)) with (names a2); [exact Hn|].
+    unfold names. rewrite <- !names_fields. unfold descr in Hd. now rewrite Hd.
+  - intro n. unfold copy_expected_sw. rewrite (find_field_map _ _ _ P).
+    destruct (find_field n (fields a1)) as [f1|] eqn:E1.
+    + destruct (find_field n (fields a2)) as [g|] eqn:E2; cbn [option_map].
+      * rewrite (Hc n f1 g E1 E2). f_equal. destruct (find_field_Some _ _ _ E2) as [_ Hgn].
+        unfold upd_sw. rewrite Hgn, E1. reflexivity.
+      * destruct (find_field n (fields r)) as [f|] eqn:Er; [|reflexivity]. exfalso.
+        destruct (find_field_same_descr n _ _ f Hd Er) as [g [Eg _]]. congruence.
+    + assert (Hnot : ~ In n (names a1)) by (now apply find_field_None).
+      rewrite (Hu n Hnot). destruct (find_field n (fields a2)) as [g|] eqn:E2; [|reflexivity].
+      cbn [option_map]. f_equal. destruct (find_field_Some _ _ _ E2) as [_ Hgn].
+      unfold upd_sw. now rewrite Hgn, E1.
+Qed.
+
+Lemma copy_check_sw_complete a1 a2 out :
+  NoDup (names a2) -> (exists r, out = Ok r /\ copy_ok_sw a1 a2 r) -> copy_check_sw a1 a2 out = true.
+Proof.
+  intros Hn [r [-> H]]. unfold copy_check_sw. rewrite (copy_ok_sw_unique a1 a2 r Hn H) at 1. apply sarray_eqb_refl.
+Qed.
